@@ -10,7 +10,7 @@ import (
 func VerifH_C02_BlockReaderNext() {
 	N := 12
 	if vTier() == 1 {
-		N = 16
+		N = 14 // 16 bytes: several hours
 	}
 	vC02BlockReader(N, true)
 }
@@ -118,7 +118,7 @@ func VerifH_C02_BlockReaderDataWithEOF() {
 func VerifH_C02_SkipNextTruncation() {
 	N := 9
 	if vTier() == 1 {
-		N = 12
+		N = 11
 	}
 	root := vIdentityCid([]byte("r"))
 	hdr := vHeaderV1(root)
